@@ -225,7 +225,31 @@ def shards_extreme(tier):
             for la in range(6) for lb in range(6)]
 
 
-SUBCHECKS = [SubCheck("pointcharge", judge, shards, strategy=lambda sh: case_st(sh["la"], sh["lb"])),
+def corner_cases(shard):
+    """Enumerated corners for pairs of EQUAL angular momentum l = 2..5 (the L_a >= L_b rule does not decide): every combination of
+    {diffuse, tight, single primitive at the geometric mean, diffuse+tight contraction} on the two shells, 3 separations."""
+    l = shard["l"]
+    lo, hi = 0.02, gen.exp_cap(l)
+    kinds = {"diffuse": [lo], "tight": [hi], "middle": [(lo * hi) ** 0.5], "wide": [lo, hi], "wide-reversed": [hi, lo]}
+    for ka, ea in kinds.items():
+        for kb, eb in kinds.items():
+            for kpref in (1.0, 2.5, 4.0):
+                mu = min(ea) * min(eb) / (min(ea) + min(eb))
+                r = (kpref * 2.302585092994046 / mu) ** 0.5
+                B = [0.0, 0.6 * r, 0.8 * r]
+                sa = {"l": l, "coord": [0.0, 0.0, 0.0], "exps": ea, "coeffs": [[1.0]] * len(ea), "type": "cartesian"}
+                sb = {"l": l, "coord": B, "exps": eb, "coeffs": [[0.7]] * len(eb), "type": "cartesian"}
+                yield {"shells": [sa, sb], "coords": [[0.0, 0.0, 0.0], B, [0.0, 0.3 * r, 0.4 * r]], "charges": [1.0, -2.0, 3.0],
+                       "ccls": ["on-centre", "on-centre", "midpoint"], "ints": False, "extreme": "corner-%s-%s" % (ka, kb)}
+
+
+def shards_corner(tier):
+    return [{"id": f"l{l}", "l": l, "cost": 75 * (1 + 2 * l) ** 2} for l in (2, 3, 4, 5)]
+
+
+SUBCHECKS = [SubCheck("corners", judge, shards_corner, cases=corner_cases),
+             SubCheck("pointcharge", judge, shards, strategy=lambda sh: case_st(sh["la"], sh["lb"])),
              SubCheck("extreme-ratio", judge, shards_extreme, strategy=lambda sh: extreme_st(sh["la"], sh["lb"]))]
-EXHAUSTIVE = {"l_pairs": "all 36 ordered (l_a,l_b) in 0..5"}
+EXHAUSTIVE = {"l_pairs": "all 36 ordered (l_a,l_b) in 0..5",
+              "corners": "equal l = 2..5: all 25 combinations of {diffuse, tight, middle, wide, wide-reversed} exponent sets x 3 separations"}
 EXPECTED_CLASSES = ["extreme-ratio/diffuse-first", "extreme-ratio/tight-first", "extreme-ratio/wide-contractions", "pointcharge/charge-on-centre", "pointcharge/charge-almost-on-centre", "pointcharge/charge-boys-target", "pointcharge/charge-far", "pointcharge/boysT-1e1", "pointcharge/boysT-1e4"]
